@@ -74,3 +74,44 @@ func VerifC17dClient() {
 		verifrt.Reach("refused")
 	}
 }
+
+// VerifC17dTwoPorts: two servers on one host, different ports, presenting the
+// same host key; the first is in known_hosts, the second is unknown or listed
+// with another key; the user answers no: trust is per [host]:port — the second
+// server is not talked to because the first one was verified.
+func VerifC17dTwoPorts() {
+	dlog.VerifInstall(source.Client)
+	config.Common = &config.CommonConfig{SSHPort: 2222}
+	memfs.Reset()
+	verifNetReset()
+	os.Setenv("HOME", "/home/u")
+	sshclient.VerifC17ResetVerdicts()
+	sshclient.VerifC17SetVerdict("alpha:2222", 0)
+	verdict := 1 + verifrt.Choose("second-server", 2) // unknown or changed
+	sshclient.VerifC17SetVerdict("alpha:2223", verdict)
+	memfs.Stdin = []byte("n\n")
+	var args config.Args
+	args.ServersStr = "alpha:2222,alpha:2223"
+	args.UserName = "u"
+	args.What = "/var/log/x.log"
+	args.RegexStr = "x"
+	args.Mode = omode.GrepClient
+	args.ConnectionsPerCPU = 1
+	args.Quiet = true
+	c, err := NewGrepClient(args)
+	verifrt.Assert(err == nil && c != nil, "NewGrepClient failed")
+	ctx, cancel := context.WithCancel(context.Background())
+	done := make(chan struct{})
+	go func() {
+		c.Start(ctx, nil)
+		close(done)
+	}()
+	select {
+	case <-done:
+	case <-time.After(30 * time.Second):
+	}
+	cancel()
+	verifrt.Assert(VerifTalkedTo["alpha:2222"] > 0, "the server whose key is known was refused")
+	verifrt.Assert(VerifTalkedTo["alpha:2223"] == 0, "a server on another port of a verified host was talked to although its own key is not trusted")
+	verifrt.Reach("second-refused")
+}
